@@ -155,7 +155,7 @@ def leaf_eq(it, a, b):
             return "int"
         if isinstance(v, float):
             return "float"
-        if isinstance(v, (str, SStr)):
+        if isinstance(v, (str, SStr)) or type(v).__name__ == "ISOText":
             return "str"
         if isinstance(v, (bytes, bytearray, SBytes)):
             return "bin"
@@ -174,6 +174,10 @@ def leaf_eq(it, a, b):
     if ka == "int":
         return it.zint(a) == it.zint(b), "integer differs"
     if ka == "str":
+        if type(a).__name__ == "ISOText" or type(b).__name__ == "ISOText":
+            if type(a) is not type(b) or a.sep != b.sep:
+                return False, "ISO text differs"
+            return a.dt.same_as(b.dt), "ISO timestamp text differs"
         return it.zstr(a) == it.zstr(b), "text differs"
     if ka == "float":
         return (a == b or (a != a and b != b)), "float differs"
@@ -251,6 +255,8 @@ def deep_obs(it, v, depth=0):
         return ("obj", v.cls.name, tuple((k, deep_obs(it, a, depth + 1)) for k, a in sorted(v.attrs.items()) if not k.startswith("__")))
     if isinstance(v, (SInt, SStr, SBool, SBytes)):
         return ("sym", type(v).__name__, v.t)
+    if type(v).__name__ == "SymDT":
+        return ("datetime", tuple(deep_obs(it, c, depth + 1) for c in v.comps), None if v.utcoffset() is None else v.utcoffset().total_seconds(), v.fold)
     if isinstance(v, Opaque):
         return ("opaque", v.t)
     if isinstance(v, (list, tuple)):
